@@ -133,6 +133,43 @@ func TestVerifC01HTTPBenignTable(t *testing.T) {
 		m.Case("mixed-benign", false)
 		m.Sample(map[string]any{"scenario": "mixed statuses 100-499 on one BreakerHandler", "requests": n, "dropped": dropped})
 	}
+	// ---- sustained mix of successes and failures below the trip threshold: every admitted
+	// request must record its outcome (successes counted), so while the outcomes the harness
+	// has seen satisfy total-5 <= 1.5*accepts (frozen clock: all in the window) nothing is dropped
+	for _, share := range []int{10, 30} {
+		c := c01NewHTTP(metrics, fmt.Sprint("mix", share))
+		n := vk.N(3000, 30000)
+		var acc, tot, asserted int64
+		okRow := true
+		for k := 0; k < n; k++ {
+			bad := r.Intn(100) < share
+			s := 100 + r.Intn(400)
+			if bad {
+				s = 500 + r.Intn(100)
+			}
+			must := 2*(tot-5) <= 3*acc
+			ran, code := c.call(s, r.Intn(2))
+			m.Count("requests_mixed_success_failure", 1)
+			if !ran {
+				if must {
+					m.Violate("C01:mixed:http:rejected-below-threshold", fmt.Sprintf("case=%d;%d%% 5xx among statuses < 500 on one BreakerHandler", 850+share, share), "request #%d (status %d) was dropped (recorded %d) although the %d admitted requests so far were %d x <500 and %d x >=500, i.e. total-5 <= 1.5*successes: successes are not counted", k, s, code, tot, acc, tot-acc)
+					okRow = false
+					break
+				}
+				continue
+			}
+			if must {
+				asserted++
+			}
+			tot++
+			if !bad {
+				acc++
+			}
+		}
+		m.Count("mixed_requests_admitted_in_must_admit_state", asserted)
+		m.Case(fmt.Sprint("mixed-success-failure", share, okRow), okRow && tot > acc)
+		m.Sample(map[string]any{"scenario": fmt.Sprintf("%d%% 5xx among <500 responses, %d requests", share, n), "successes": acc, "failures": tot - acc, "dropped_below_threshold": !okRow})
+	}
 	// ---- non-benign rows
 	for s := 500; s <= 599; s++ {
 		c := c01NewHTTP(metrics, fmt.Sprint("f", s))
